@@ -46,6 +46,18 @@ theorem C05_bit_counterexample : ∀ u : Unit, isBitFamily u = true → ¬ Facto
   have h : ∀ u ∈ Unit.all, isBitFamily u = true → ¬ FactorOK u := by decide +kernel
   exact fun u => h u (unit_all_complete u)
 
+/-- the known finding K1 stated exactly, so that any *other* deviation of a bit-family row is not
+    covered by it: each of the thirteen rows ships the definition's factor divided by 64
+    (1/8 per byte where 8 bits make a byte, and so on through the prefixes). -/
+def FactorAsKnown (u : Unit) : Prop :=
+  |bitsToRat (Gen.perBaseBits u) * unitSize u * 64 - 1| ≤ tolerance u
+
+instance (u : Unit) : Decidable (FactorAsKnown u) := by unfold FactorAsKnown; infer_instance
+
+theorem C05_bit_family_exactly_as_known : ∀ u : Unit, isBitFamily u = true → FactorAsKnown u := by
+  have h : ∀ u ∈ Unit.all, isBitFamily u = true → FactorAsKnown u := by decide +kernel
+  exact fun u => h u (unit_all_complete u)
+
 /-- the shipped factors are positive, and the base units' factors are exactly 1
     (the hypotheses `hpos` / `hbase` of the algebraic theorems of C05/C06) -/
 theorem C05_factor_pos : ∀ u : Unit, u.kind ≠ .temperature → 0 < bitsToRat (Gen.perBaseBits u) := by
@@ -79,5 +91,11 @@ theorem C05_no_undocumented_spelling :
 
 /-- the negation at the witness (replayed on the implementation as `1 yd as ft`) -/
 theorem C05_yard_counterexample : lookup "yd" = some (.unit (.distance .foot)) := by decide +kernel
+
+/-- the known finding K2 stated exactly: each of the three yard spellings denotes the foot (so a
+    change that makes them denote anything else is not covered by the finding). -/
+theorem C05_yard_exactly_as_known :
+    ∀ p ∈ Spec.spellings, isYardSpelling p.1 = true → lookup p.1 = some (.unit (.distance .foot)) := by
+  decide +kernel
 
 end Calc.Props.C05
